@@ -50,9 +50,10 @@ With(d, ld, lb, mag, el) == [d EXCEPT !.st = "ok", !.ld = ld, !.lb = lb, !.mag =
 OffU(d, a) == Max2(0, Ek(a) - d.maxk)
 \* a plaintext operand: precision pld, stored width pk, magnitude pmag (log2), quantisation error 2^(S0 - pld)
 Pt(s) == [ld |-> s.pld, pk |-> DivCeil2(s.pld + s.pplb, B) * B, mag |-> s.pmag, el |-> S0 - s.pld]
+AddKeepsMin == TRUE          \* overridden by MC_Ckks_neg.cfg (negative control: the larger budget survives an addition)
 AddOut(d, a, b) ==
   LET off == Max2(0, Min2(Ek(a), Ek(b)) - d.maxk)
-      lb == Min2(a.lb, b.lb)
+      lb == IF AddKeepsMin THEN Min2(a.lb, b.lb) ELSE Max2(a.lb, b.lb)
   IN IF off > lb THEN Err(ErrCap, d) ELSE Ok(With(d, Min2(a.ld, b.ld), lb - off, Max2(a.mag, b.mag) + 1, Max2(a.el, b.el) + 1))
 AddAssignOut(d, b) == Ok(With(d, Min2(d.ld, b.ld), Min2(d.lb, b.lb), Max2(d.mag, b.mag) + 1, Max2(d.el, b.el) + 1))
 MulOut(d, x, y) ==
